@@ -305,7 +305,7 @@ class C01Driver:
 
     def extra(self, tier, base_seed):
         t0 = time.time()
-        n_worlds, k = (60, 4) if tier == "quick" else (600, 8)
+        n_worlds, k = (72, 4) if tier == "quick" else (600, 8)
         hashseeds = self.hashseeds(base_seed, k)
         plans = []
         for i in range(n_worlds):
